@@ -39,6 +39,11 @@ def header_fields(lay, v, hdr_pos=0):
     return out
 
 
+def work_factor(lv):
+    """WorkSpec.cl_members: callbacks one instance of every level can cost"""
+    return len(lv["fields"]) + len(lv["data"]) + sum(2 + work_factor(g["level"]) for g in lv["groups"])
+
+
 def run(res, replay=None):
     rng = SplitMix64(res.seed + 6)
     res.rule = ("random accepted schemas x reference-encoder images (compiled and inflated block lengths) x (a) every "
@@ -46,7 +51,7 @@ def run(res, replay=None):
                 "0, value-1, value+1, a value that just fits / just exceeds the buffer, and the type maximum, alone and "
                 "combined with truncation; the buffer ends on a PROT_NONE page, assertions are disabled. Judged against "
                 "the property: no fault / no read at offset >= n (model trace), valid=true with the exact size iff the "
-                "described structure fits (Checked.described_fit), work (callbacks) <= 4(n+1)+16. Non-trivial = buffer "
+                "described structure fits (Checked.described_fit), work (callbacks) <= (W+1)(n+1) with W = WorkSpec.cl_members of the schema (the bound proved in WorkProofs.v). Non-trivial = buffer "
                 "with at least one group or data member reached.")
     ok_proof = proof_step(res)
     model = Model()
@@ -148,8 +153,10 @@ def run(res, replay=None):
                     if M[0] != "oob":
                         found |= res.violation("fault-unmodelled", "implementation faults where the model does not: " + kind, base)
                     continue
-                if steps > 4 * (n + 1) + 16:
-                    found |= res.violation("work:unbounded", "size_bytes_checked did %d callbacks on a %d-byte buffer [%s]" % (steps, n, kind), base)
+                wf_ = work_factor(lays[s.messages.index(m)]["level"]) + 1
+                if steps > wf_ * (n + 1):
+                    found |= res.violation("work:unbounded", "size_bytes_checked did %d callbacks on a %d-byte buffer, proven bound "
+                                           "(WorkProofs.checked_work_bound) is %d*(n+1) [%s]" % (steps, n, wf_, kind), base)
                 # exactness against the specification
                 exp = "valid " + F[1] if F[0] == "fits" else "invalid"
                 got = " ".join(I[:2]) if I[0] == "valid" else I[0]
@@ -191,7 +198,7 @@ def run(res, replay=None):
             k = dict(x.split("=") for x in r.split()[2:]).get("kind", "?")
             found |= res.violation("oob-read:%s" % KINDS.get(k, "unmodelled"),
                                    "probe %s: size_bytes_checked(view, %d) reads a byte at offset >= %d (%s)" % (what, len(b_), len(b_), r), base)
-        elif r == "fuel" or st > 4 * (len(b_) + 1) + 16:
+        elif r == "fuel" or st > 4 * (len(b_) + 1):
             found |= res.violation("work:unbounded-iterations",
                                    "probe %s: a %d-byte buffer costs %s callbacks" % (what, len(b_), r), base)
     res.extra["outcome_distribution_model"] = dist
